@@ -410,6 +410,9 @@ func (r *ChunkReader) findRootNode() error {
 		return err
 	}
 	if _, err := io.ReadFull(r.readSeeker, r.currNode[:4]); err != nil {
+		if err == io.EOF {
+			err = io.ErrUnexpectedEOF
+		}
 		r.err = err
 		return err
 	}
@@ -431,6 +434,9 @@ func (r *ChunkReader) findRootNode() error {
 		return err
 	}
 	if _, err := io.ReadFull(r.readSeeker, r.currNode[:1]); err != nil {
+		if err == io.EOF {
+			err = io.ErrUnexpectedEOF
+		}
 		r.err = err
 		return err
 	}
@@ -486,6 +492,9 @@ func (r *ChunkReader) load(cOffset int64, arity uint8) error {
 		return err
 	}
 	if _, err := io.ReadFull(r.readSeeker, r.currNode[:size]); err != nil {
+		if err == io.EOF {
+			err = io.ErrUnexpectedEOF
+		}
 		r.err = err
 		return err
 	}
@@ -506,6 +515,9 @@ func (r *ChunkReader) loadAndValidate(cOffset int64,
 		return err
 	}
 	if _, err := io.ReadFull(r.readSeeker, r.currNode[:4]); err != nil {
+		if err == io.EOF {
+			err = io.ErrUnexpectedEOF
+		}
 		r.err = err
 		return err
 	}
